@@ -44,9 +44,11 @@ func (t *T0x0102) Parse(jtMsg *jt808.JTMessage) error {
 		if len(body) < 1+int(t.AuthCodeLen)+15+20 {
 			return protocol.ErrBodyLengthInconsistency
 		}
-		t.AuthCode = string(body[1 : 1+t.AuthCodeLen])
-		t.TerminalIMEI = string(body[1+t.AuthCodeLen : 1+t.AuthCodeLen+15])
-		data := body[1+t.AuthCodeLen+15 : 1+t.AuthCodeLen+15+20]
+		// 用int计算下标 uint8相加会溢出(鉴权码长度>=220时切片越界panic)
+		n := int(t.AuthCodeLen)
+		t.AuthCode = string(body[1 : 1+n])
+		t.TerminalIMEI = string(body[1+n : 1+n+15])
+		data := body[1+n+15 : 1+n+15+20]
 		if index := bytes.IndexByte(data, 0x00); index != -1 {
 			data = data[:index]
 		}
